@@ -269,15 +269,28 @@ Theorem C14_no_such_subcomponent_index t lvl f fname a b j k d st ce i2 d2 c x :
 Proof. apply positional_no_subcomponent. Qed.
 Print Assumptions C14_no_such_subcomponent_index.
 
-(* REFUTED for fields of datatype `varies` (recorded finding F22): the subcomponent path
-   <SEG>_<i>_<j>_<k> is decoded, component VARIES_<j> is found, and then
-   self.structure_by_name[component_name] is evaluated on a leaf-shaped reference (no map): TypeError,
-   neither a child nor ChildNotFound / ChildNotValid.  Witness: OBX_5 of v2.5. *)
-Theorem C14_no_such_varies_refuted :
+(* Fields of datatype `varies` (OBX_5, QPD_3, ...): <SEG>_<i>_<j> is the component VARIES_<j>, and a
+   subcomponent path <SEG>_<i>_<j>_<k> designates nothing -- the field has no component structure to
+   decode <k> against -- and is refused with ChildNotFound.  (Before hl7apy commit 0d2eed5 the lookup
+   self.structure_by_name[component_name] raised TypeError here; the model followed the fix.) *)
+Theorem C14_no_such_varies t lvl f fname a b :
+  f_name f = Some fname -> upper fname = fname -> bsplit US fname = [a; b] ->
+  f_dt f = Some (unbs "varies") -> base t (Some (unbs "varies")) = false ->
+  (forall st, f_st f = Some st -> has_map_st st = false) ->
+  (forall j, field_find_child_reference t f (name_idx fname j) = Err (HL7 EChildNotFound) ->
+             resolve t lvl (PField f) (name_idx fname j) =
+             Ok (TChild (mk_sentry (name_idx (unbs "VARIES") j) varies_leaf CMP)))
+  /\ (forall j k, field_find_child_reference t f (name_idx (name_idx fname j) k) = Err (HL7 EChildNotFound) ->
+                  resolve t lvl (PField f) (name_idx (name_idx fname j) k) = Err (HL7 EChildNotFound)).
+Proof. apply positional_varies. Qed.
+Print Assumptions C14_no_such_varies.
+
+(* the premises hold of OBX_5 of v2.5 *)
+Theorem C14_no_such_varies_witness :
   exists s f, parent_segment Gen.Tables_v2_5.tables (unbs "OBX") = Ok s /\
               parent_field Gen.Tables_v2_5.tables TOLERANT s (unbs "OBX_5") = Ok f /\
               is_varies (f_dt f) = true /\
-              resolve Gen.Tables_v2_5.tables TOLERANT (PField f) (unbs "obx_5_1_1") = Err (Crash TypeError) /\
+              resolve Gen.Tables_v2_5.tables TOLERANT (PField f) (unbs "obx_5_1_1") = Err (HL7 EChildNotFound) /\
               resolve Gen.Tables_v2_5.tables TOLERANT (PField f) (unbs "obx_5_1") =
                 Ok (TChild (mk_sentry (unbs "VARIES_1") varies_leaf CMP)).
 Proof.
@@ -288,7 +301,7 @@ Proof.
     split; [reflexivity|]. split; vm_compute; reflexivity.
   - exfalso. vm_compute in S. injection S as <-. vm_compute in Fd. discriminate.
 Qed.
-Print Assumptions C14_no_such_varies_refuted.
+Print Assumptions C14_no_such_varies_witness.
 
 (* ================================================================== *)
 (* 5. The finite obligations of every supported version                 *)
